@@ -84,7 +84,7 @@ def act : Fn → Kind → Act
 Read off cola/linalg/inverse/inv.py, logdet/logdet.py, trace/diag_trace.py, unary/unary.py,
 decompositions/decompositions.py by hand; `Lemmas/SkeletonTie.lean` compares it FIELD BY FIELD with what
 the translator extracts from the AST of the live rules (`Gen/StructuralRules.lean: shapes_<f>`), and
-`act` above is DERIVED from it (`actOf`, theorem `act_derived`) — so `act`, and with it `dens` and
+`act` above is DERIVED from it (`actOf`; checked as `SkeletonTie.skeletonDerived`, theorem `C19_skeleton_derived`) — so `act`, and with it `dens` and
 `C19_rules`, is no longer a free-standing table. -/
 
 /-- one alternative of an argument: the `k`-th positional of the rule, or an expression of the class
@@ -391,8 +391,9 @@ def ruleCost : Fn → Op R → Nat
   | f, A@(house _ _ _ _) => genCost f A
   | f, A@(generic _) => genCost f A
 
-/-- Σ of the dense sizes `rows · cols` of the FACTORS (the leaves of the structured part of the tree):
-    "the dense sizes of the individual factors" of the statement.  (The value on a sliced / concatenated /
+/-- Σ over the FACTORS (the leaves of the structured part of the tree) of the dense size `rows · cols` of a Dense /
+    Triangular factor and of the STORAGE of a structured leaf (Diagonal n, Identity / ScalarMul 1, Permutation n,
+    Sparse nnz, Tridiagonal 3n, Householder n): "the sizes of the individual factors" of the statement.  (The value on a sliced / concatenated /
     `no_dispatch` node — its full `rows · cols` — is never used by `C19_rule_cost`: `deepRule` is false there.) -/
 def factorDense : Op R → Nat
   | annot _ A => factorDense A
@@ -403,17 +404,19 @@ def factorDense : Op R → Nat
   | sum Ms => (Ms.map (fun M => factorDense M)).sum
   | transpose A => factorDense A
   | adjoint A => factorDense A
-  | A@(eye _ _) => A.rows * A.cols
-  | A@(scalar _ _ _) => A.rows * A.cols
-  | A@(diag _ _ _) => A.rows * A.cols
+  -- round 3: a structured leaf counts with what it STORES, not with its dense size — a full-size Diagonal / Identity /
+  -- ScalarMul member of a Sum or Product does not put n² into the bound of `C19_rule_cost`
+  | eye _ _ => 1
+  | scalar _ _ _ => 1
+  | diag _ n _ => n
   | A@(dense _ _ _ _) => A.rows * A.cols
   | A@(tri _ _ _ _ _) => A.rows * A.cols
-  | A@(perm _ _) => A.rows * A.cols
-  | A@(sparse _ _ _ _) => A.rows * A.cols
-  | A@(tridiag _ _ _ _ _) => A.rows * A.cols
+  | perm _ p => p.length
+  | sparse _ _ _ ents => ents.length
+  | tridiag _ n _ _ _ => 3 * n
   | A@(sliced _ _ _) => A.rows * A.cols
   | A@(concat _ _) => A.rows * A.cols
-  | A@(house _ _ _ _) => A.rows * A.cols
+  | house _ n _ _ => n
   | A@(generic _) => A.rows * A.cols
 
 /-- Σ over the nodes of the structured part of the tree of `(arity + 1) · (linear size + 4)`: sums of
@@ -470,15 +473,18 @@ def deepRule : Fn → Op R → Bool
       match act f .adjoint with
       | .leaf => true | .self => false | .members g => deepRule g A
   -- FACTORS: leaf kinds; `factorDense` holds their own dense size `rows · cols`
-  | _, eye _ _ => true
-  | _, scalar _ _ _ => true
-  | _, diag _ _ _ => true
   | _, dense _ _ _ _ => true
   | _, tri _ _ _ _ _ => true
-  | _, perm _ _ => true
-  | _, sparse _ _ _ _ => true
-  | _, tridiag _ _ _ _ _ => true
-  | _, house _ _ _ _ => true
+  -- round 3: a structured leaf is a factor only where `f` has a structural rule for it (then `f` allocates vectors of its
+  -- linear size); where `f` falls back to the generic rule the leaf is densified (`genCost = cf · n²`) and the tree is not
+  -- covered — Sparse, Tridiagonal and Householder have no rule in any family
+  | f, eye _ _ => match act f .eye with | .leaf => true | _ => false
+  | f, scalar _ _ _ => match act f .scalar with | .leaf => true | _ => false
+  | f, diag _ _ _ => match act f .diagonal with | .leaf => true | _ => false
+  | f, perm _ _ => match act f .perm with | .leaf => true | _ => false
+  | _, sparse _ _ _ _ => false
+  | _, tridiag _ _ _ _ _ => false
+  | _, house _ _ _ _ => false
   -- round 3: COMPOSITE / OPAQUE kinds without any structural rule (a slice of an operator, a concatenation, a
   -- `no_dispatch` wrapper) are NOT factors: the generic rule takes the whole node, whose dense size may be the n²
   -- of a structured operator inside it.  `C19_rule_cost` does not apply to a tree in which the recursion meets one.
